@@ -142,10 +142,21 @@ fn balances<F: FileSystem>(loader: load::Loader<F>) -> Result<Vec<(String, Strin
     r.unwrap_or(Err("panic".into()))
 }
 
+/// the ids whose transactions carry a running-balance assertion (their position in the uncut
+/// ledger): none in a tree whose files are included repeatedly (kind 4), where one text is
+/// delivered at several positions
+fn asserted(t: &Tree) -> &[u64] {
+    if t.kind == 4 {
+        &[]
+    } else {
+        &t.ledger
+    }
+}
+
 fn fake_map(t: &Tree) -> HashMap<PathBuf, Vec<u8>> {
     let mut m = HashMap::new();
     for (p, es) in &t.files {
-        m.insert(PathBuf::from(vstr(p)), file_text(es, "", &t.ledger).into_bytes());
+        m.insert(PathBuf::from(vstr(p)), file_text(es, "", asserted(t)).into_bytes());
     }
     m
 }
@@ -170,15 +181,15 @@ pub fn observe(sc: &Scratch, seq: usize, t: &Tree) -> Observed {
     for (p, es) in &t.files {
         let fp = base.join(p.join("/"));
         std::fs::create_dir_all(fp.parent().unwrap()).unwrap();
-        std::fs::write(&fp, file_text(es, &prefix, &t.ledger)).unwrap();
+        std::fs::write(&fp, file_text(es, &prefix, asserted(t))).unwrap();
     }
     let real_root = PathBuf::from(format!("{}{}", prefix, vstr(&t.root)));
     let real = run_loader(load::new_loader(real_root.clone()), &index, &prefix);
     // report level: balances of the cut tree (both file systems) against the uncut ledger
-    let (bal, bal_detail) = if t.kind == 0 {
+    let (bal, bal_detail) = if t.kind == 0 || t.kind == 4 {
         let mut one = HashMap::new();
         let all: Vec<AEntry> = t.ledger.iter().map(|id| AEntry::Ent(*id)).collect();
-        one.insert(PathBuf::from("/r/all.ledger"), file_text(&all, "", &t.ledger).into_bytes());
+        one.insert(PathBuf::from("/r/all.ledger"), file_text(&all, "", asserted(t)).into_bytes());
         let uncut = balances(load::Loader::new(PathBuf::from("/r/all.ledger"), load::FakeFileSystem::from(one)));
         let bf = balances(load::Loader::new(PathBuf::from(vstr(&t.root)), load::FakeFileSystem::from(fake_map(t))));
         let br = balances(load::new_loader(real_root));
@@ -384,6 +395,8 @@ struct Gen<'a> {
 }
 
 const DIRS: [&str; 8] = ["a", "b", "sub", "s-1", "s.d", "d e", "é", "x+y"];
+const DOT_STEMS: [&str; 7] = ["x", "opening", "a.b", "h", "0", "é", "A-1"];
+const DOT_DIRS: [&str; 4] = [".cfg", ".d", ".x.d", ".é"];
 const STEMS: [&str; 10] = ["x", "y", "a.b", "a-b", "A", "_z", "é", "zz", "a", "0"];
 
 impl<'a> Gen<'a> {
@@ -407,6 +420,22 @@ impl<'a> Gen<'a> {
         let mut p = dir.clone();
         let f = self.fresh();
         p.push(format!("{}.ledger", f));
+        self.reserve(&p);
+        p
+    }
+    /// a new file whose name begins with a dot: only an include that spells the dot can reach it
+    fn fresh_dot_file(&mut self, dir: &VPath) -> VPath {
+        for _ in 0..20 {
+            let stem = *self.r.pick(&DOT_STEMS[..]);
+            let mut p = dir.clone();
+            p.push(format!(".{}.ledger", stem));
+            if self.reserve(&p) {
+                return p;
+            }
+        }
+        let mut p = dir.clone();
+        let f = self.fresh();
+        p.push(format!(".{}.ledger", f));
         self.reserve(&p);
         p
     }
@@ -511,10 +540,34 @@ impl<'a> Gen<'a> {
                 i += k;
             } else if choice < 14 {
                 // literal include of one new file
-                let m = self.r.below(remaining.min(4) as u64 + 1) as usize;
+                let mut m = self.r.below(remaining.min(4) as u64 + 1) as usize;
                 let tdir = self.choose_dir(&dir);
                 let tdir = self.open_dir(tdir);
-                let target = self.fresh_file(&tdir);
+                let target = match self.r.below(8) {
+                    0 | 1 => {
+                        // a file whose name begins with a dot, named literally (no wildcard in the
+                        // component: that would be the known class C11-K2 on the real file system)
+                        self.tags.insert("include:literal dot-file (.x.ledger)".into());
+                        if m == 0 && remaining > 0 {
+                            m = 1;
+                        }
+                        self.fresh_dot_file(&tdir)
+                    }
+                    2 => {
+                        self.tags.insert("include:literal through a dot directory (.cfg/x.ledger)".into());
+                        if m == 0 && remaining > 0 {
+                            m = 1;
+                        }
+                        let mut d = tdir.clone();
+                        d.push(self.r.pick(&DOT_DIRS[..]).to_string());
+                        if self.r.chance(1, 3) {
+                            self.fresh_dot_file(&d)
+                        } else {
+                            self.fresh_file(&d)
+                        }
+                    }
+                    _ => self.fresh_file(&tdir),
+                };
                 let w = self.written(&dir, &target);
                 if w.contains("..") {
                     self.tags.insert("include:..".into());
@@ -523,6 +576,55 @@ impl<'a> Gen<'a> {
                 content.push(AEntry::Inc(w));
                 self.build(&seg[i..i + m], target, depth + 1);
                 i += m;
+            } else if self.r.chance(1, 5) {
+                // a directory with ordinary files and a dot-file: `include d/*.ledger` must skip the
+                // dot-file, `include d/.opening.ledger` (literal, before or after) must load it
+                let base = self.choose_dir(&dir);
+                let base = self.open_dir(base);
+                let tdir = self.fresh_dir(&base);
+                self.closed.insert(tdir.clone());
+                let g = 1 + self.r.below(3) as usize;
+                let mut targets: Vec<VPath> = (0..g).map(|_| self.fresh_file(&tdir)).collect();
+                targets.sort_by(|a, b| PathBuf::from(vstr(a)).cmp(&PathBuf::from(vstr(b))));
+                let dotp = self.fresh_dot_file(&tdir);
+                let mut d = tdir.clone();
+                d.push(".swp.ledger".into());
+                self.decoy(d);
+                let mut pattern = tdir.clone();
+                pattern.push(self.r.pick(&["*.ledger", "*.ledge?", "?*.ledger", "*.l*"][..]).to_string());
+                self.tags.insert("glob:*.ledger beside a dot-file that a literal include names".into());
+                self.tags.insert("include:literal dot-file (.x.ledger)".into());
+                self.tags.insert("include:glob".into());
+                let dot_first = self.r.chance(1, 2);
+                for step in 0..2 {
+                    let remaining = seg.len() - i;
+                    if (step == 0) == dot_first {
+                        let mut d = self.r.below(remaining.min(2) as u64 + 1) as usize;
+                        if d == 0 && remaining > 0 && self.r.chance(3, 4) {
+                            d = 1;
+                        }
+                        let w = self.written(&dir, &dotp);
+                        content.push(AEntry::Inc(w));
+                        self.build(&seg[i..i + d], dotp.clone(), depth + 1);
+                        i += d;
+                    } else {
+                        let m = self.r.below(remaining.min(4) as u64 + 1) as usize;
+                        let mut cuts: Vec<usize> = (0..g - 1).map(|_| self.r.below(m as u64 + 1) as usize).collect();
+                        if m >= g && self.r.chance(2, 3) {
+                            cuts = (1..g).map(|k| k * m / g).collect();
+                        }
+                        cuts.sort();
+                        let w = self.written(&dir, &pattern);
+                        content.push(AEntry::Inc(w));
+                        let mut lo = 0;
+                        for (k, t) in targets.iter().enumerate() {
+                            let hi = if k + 1 == g { m } else { cuts[k] };
+                            self.build(&seg[i + lo..i + hi], t.clone(), depth + 1);
+                            lo = hi;
+                        }
+                        i += m;
+                    }
+                }
             } else {
                 // glob include over g new files, visited in PathBuf order
                 let mut g = 1 + self.r.below(3) as usize;
@@ -917,6 +1019,263 @@ fn gen_tree(r: &mut Rng) -> (Tree, BTreeSet<String>) {
     (t, tags)
 }
 
+
+// ---------- trees whose files are included repeatedly ----------
+
+/// how a file in directory `from` writes the file or pattern path `to`; `dirs` = the directories
+/// of the tree (a `..` may only follow a directory that exists: the real file system resolves
+/// `sub/..` through `sub`, the in-memory one lexically)
+fn spell(r: &mut Rng, from: &VPath, to: &VPath, dirs: &BTreeSet<VPath>, tags: &mut BTreeSet<String>) -> String {
+    let mut c = 0;
+    while c < from.len() && c + 1 < to.len() && from[c] == to[c] {
+        c += 1;
+    }
+    let ups = from.len() - c;
+    let mut parts: Vec<String> = vec!["..".to_string(); ups];
+    parts.extend(to[c..].iter().cloned());
+    let rel = parts.join("/");
+    let subdirs: Vec<&VPath> = dirs.iter().filter(|d| d.len() == from.len() + 1 && d[..from.len()] == from[..]).collect();
+    let w = match r.below(16) {
+        0 | 1 => {
+            tags.insert("written:absolute".into());
+            vstr(to)
+        }
+        2 | 3 if ups == 0 => {
+            tags.insert("written:./".into());
+            format!("./{}", rel)
+        }
+        4 | 5 if from.len() > 1 => {
+            tags.insert("written:../own-dir/".into());
+            format!("../{}/{}", from[from.len() - 1], rel)
+        }
+        6 | 7 | 8 if !subdirs.is_empty() => {
+            // down into an existing sub-directory and back up
+            tags.insert("written:sub/../".into());
+            let d = *r.pick(&subdirs);
+            format!("{}/../{}", d[d.len() - 1], rel)
+        }
+        9 if ups > 0 => {
+            tags.insert("written:.././".into());
+            format!("{}/./{}", vec![".."; ups].join("/"), to[c..].join("/"))
+        }
+        _ => rel,
+    };
+    if w.split('/').any(|x| x == "..") {
+        tags.insert("written:.. (the glob spelling is not the canonical path)".into());
+    }
+    w
+}
+
+/// One tree (kind 4) in which the same file is included twice or more in one load: from
+/// different including files and from the same one, through canonical and non-canonical
+/// spellings, literally and through a wildcard over a shared directory.  The files form a DAG
+/// (a file includes only files created before it), so no include is a cycle; `ledger` is the
+/// expansion computed here from the tree's construction, not by any loader.
+fn gen_shared_tree(r: &mut Rng) -> (Tree, BTreeSet<String>) {
+    const TOPS: [&[&str]; 9] = [&["r"], &["r", "2024"], &["r", "2024", "q1"], &["r", "sub"], &["r", "s.d"], &["r", "d e"], &["r", "2024", "é"], &["r", "lib"], &["r", ".cfg"]];
+    loop {
+        let mut tags: BTreeSet<String> = BTreeSet::new();
+        let mut next_id = 1u64;
+        // leaves first, the root last
+        let mut files: Vec<(VPath, Vec<AEntry>)> = Vec::new();
+        let mut used: BTreeSet<VPath> = BTreeSet::new();
+        let vp = |c: &[&str]| -> VPath { c.iter().map(|x| x.to_string()).collect() };
+        // the shared directory: leaf files only, reachable one by one and through `pool/*.ledger`
+        let pool: VPath = {
+            let mut d = vp(*r.pick(&TOPS[..8]));
+            d.push(r.pick(&["common", "shared", "c-1", "inc.d"][..]).to_string());
+            d
+        };
+        let npool = 1 + r.below(3) as usize;
+        let mut pool_names = ["common", "accounts", "a.b", "prices", "é", "0"].to_vec();
+        r.shuffle(&mut pool_names);
+        let mut pool_files: Vec<usize> = Vec::new();
+        for name in &pool_names[..npool] {
+            let mut p = pool.clone();
+            p.push(format!("{}.ledger", name));
+            used.insert(p.clone());
+            let k = r.below(3);
+            let es: Vec<AEntry> = (0..k)
+                .map(|_| {
+                    next_id += 1;
+                    AEntry::Ent(next_id - 1)
+                })
+                .collect();
+            pool_files.push(files.len());
+            files.push((p, es));
+        }
+        // a dot-file and a text file in the pool: never matched by the wildcard
+        let mut hidden = pool.clone();
+        hidden.push(".hidden.ledger".into());
+        let mut other = pool.clone();
+        other.push("notes.txt".into());
+        let decoys: Vec<VPath> = vec![hidden, other];
+        // the pool in the order the loader visits it
+        let mut pool_sorted = pool_files.clone();
+        pool_sorted.sort_by(|a, b| PathBuf::from(vstr(&files[*a].0)).cmp(&PathBuf::from(vstr(&files[*b].0))));
+        let nmid = 1 + r.below(4) as usize;
+        let mut dirs_planned: Vec<VPath> = (0..nmid + 1).map(|_| vp(*r.pick(&TOPS[..]))).collect();
+        // sibling files that include the same thing from one directory: the shape of a yearly ledger
+        if nmid >= 2 && r.chance(1, 2) {
+            dirs_planned[1] = dirs_planned[0].clone();
+        }
+        let mut all_dirs: BTreeSet<VPath> = BTreeSet::new();
+        for p in files.iter().map(|f| &f.0).chain(decoys.iter()) {
+            for k in 1..p.len() {
+                all_dirs.insert(p[..k].to_vec());
+            }
+        }
+        for d in &dirs_planned {
+            for k in 1..=d.len() {
+                all_dirs.insert(d[..k].to_vec());
+            }
+        }
+        for fi in 0..nmid + 1 {
+            let is_root = fi == nmid;
+            let dir = dirs_planned[fi].clone();
+            let mut path = dir.clone();
+            if is_root {
+                path.push("main.ledger".into());
+            } else {
+                let name = format!("{}.ledger", r.pick(&["jan", "feb", "x", "a.b", "é", "m-1", ".m"][..]));
+                path.push(name.clone());
+                if used.contains(&path) {
+                    path.pop();
+                    path.push(format!("n{}{}", fi, name));
+                }
+            }
+            used.insert(path.clone());
+            let nfiles = files.len();
+            let mut content: Vec<AEntry> = Vec::new();
+            let items = 2 + r.below(4) as usize;
+            let mut last_target: Option<usize> = None;
+            for _ in 0..items {
+                match r.below(10) {
+                    0..=2 => {
+                        content.push(AEntry::Ent(next_id));
+                        next_id += 1;
+                    }
+                    3 | 4 => {
+                        // the shared directory through a wildcard
+                        let mut pat = pool.clone();
+                        pat.push(r.pick(&["*.ledger", "*.ledge?", "?*.ledger"][..]).to_string());
+                        let w = spell(r, &dir, &pat, &all_dirs, &mut tags);
+                        tags.insert("repeat:wildcard over the shared directory".into());
+                        content.push(AEntry::Inc(w));
+                    }
+                    5 if last_target.is_some() => {
+                        // the file just included, once more from the same file
+                        let j = last_target.unwrap();
+                        let w = spell(r, &dir, &files[j].0.clone(), &all_dirs, &mut tags);
+                        tags.insert("repeat:the same file twice from one file".into());
+                        content.push(AEntry::Inc(w));
+                    }
+                    _ => {
+                        // any file created before this one: a leaf of the pool or another including file
+                        let j = if r.chance(1, 2) { *r.pick(&pool_files) } else { r.below(nfiles as u64) as usize };
+                        let w = spell(r, &dir, &files[j].0.clone(), &all_dirs, &mut tags);
+                        content.push(AEntry::Inc(w));
+                        last_target = Some(j);
+                    }
+                }
+            }
+            if is_root {
+                // the root reaches most including files directly
+                for j in npool..nfiles {
+                    if r.chance(3, 4) {
+                        let w = spell(r, &dir, &files[j].0.clone(), &all_dirs, &mut tags);
+                        let k = r.below(content.len() as u64 + 1) as usize;
+                        content.insert(k, AEntry::Inc(w));
+                    }
+                }
+            }
+            files.push((path, content));
+        }
+        // The expected delivery: every written include resolved lexically against the tree as it
+        // was constructed (no loader, no glob matcher involved); also how often each file is loaded.
+        let index: HashMap<String, usize> = files.iter().enumerate().map(|(i, f)| (vstr(&f.0), i)).collect();
+        let resolve = |dir: &VPath, w: &str| -> Vec<usize> {
+            let mut comps: VPath = if w.starts_with('/') { Vec::new() } else { dir.clone() };
+            for c in w.split('/') {
+                match c {
+                    "" | "." => {}
+                    ".." => {
+                        comps.pop();
+                    }
+                    x => comps.push(x.to_string()),
+                }
+            }
+            let last = comps[comps.len() - 1].clone();
+            if last.contains('*') || last.contains('?') {
+                if comps[..comps.len() - 1] == pool[..] {
+                    pool_sorted.clone()
+                } else {
+                    vec![]
+                }
+            } else {
+                index.get(&vstr(&comps)).map(|i| vec![*i]).unwrap_or_default()
+            }
+        };
+        let mut loads = vec![0usize; files.len()];
+        let mut includers: Vec<BTreeSet<usize>> = vec![BTreeSet::new(); files.len()];
+        let mut ok = true;
+        fn walk(i: usize, files: &[(VPath, Vec<AEntry>)], resolve: &dyn Fn(&VPath, &str) -> Vec<usize>, loads: &mut Vec<usize>, includers: &mut Vec<BTreeSet<usize>>, out: &mut Vec<u64>, ok: &mut bool, depth: usize) {
+            if depth > 12 || out.len() > 120 {
+                *ok = false;
+                return;
+            }
+            loads[i] += 1;
+            let dir: VPath = files[i].0[..files[i].0.len() - 1].to_vec();
+            for e in &files[i].1 {
+                match e {
+                    AEntry::Ent(id) | AEntry::Garbage(id) => out.push(*id),
+                    AEntry::Inc(w) => {
+                        let ts = resolve(&dir, w);
+                        if ts.is_empty() {
+                            *ok = false;
+                        }
+                        for j in ts {
+                            includers[j].insert(i);
+                            walk(j, files, resolve, loads, includers, out, ok, depth + 1);
+                        }
+                    }
+                }
+            }
+        }
+        let mut ledger: Vec<u64> = Vec::new();
+        let root_i = files.len() - 1;
+        walk(root_i, &files, &resolve, &mut loads, &mut includers, &mut ledger, &mut ok, 0);
+        let repeated: Vec<usize> = (0..files.len()).filter(|i| loads[*i] >= 2).collect();
+        if !ok || repeated.is_empty() || ledger.len() > 60 {
+            continue;
+        }
+        if repeated.iter().any(|i| includers[*i].len() >= 2) {
+            tags.insert("repeat:one file included from different files".into());
+        }
+        if repeated.iter().any(|i| !files[*i].1.iter().all(|e| matches!(e, AEntry::Ent(_)))) {
+            tags.insert("repeat:a file that itself includes is loaded twice".into());
+        }
+        let most = *loads.iter().max().unwrap();
+        tags.insert(format!("repeat:most loads of one file = {}", if most >= 5 { "5+".to_string() } else { most.to_string() }));
+        // the root first, as in the other trees; decoys last
+        files.reverse();
+        for (k, d) in decoys.into_iter().enumerate() {
+            files.push((d, vec![AEntry::Garbage(9500 + k as u64)]));
+        }
+        let mut root = files[0].0.clone();
+        if root.len() > 2 && r.chance(1, 8) {
+            let d = root[root.len() - 2].clone();
+            let mut nr = root[..root.len() - 1].to_vec();
+            nr.push("..".into());
+            nr.push(d);
+            nr.push("main.ledger".into());
+            root = nr;
+            tags.insert("root:non-canonical".into());
+        }
+        return (Tree { kind: 4, files, root, ledger }, tags);
+    }
+}
+
 fn nontrivial(t: &Tree) -> bool {
     let loaded = t.files.iter().filter(|(_, es)| !es.iter().any(|e| matches!(e, AEntry::Garbage(_)))).count();
     let special = t.files.iter().any(|(_, es)| {
@@ -949,7 +1308,7 @@ fn flush(q: &mut Vec<Pending>, sh: &mut Shards, st: &mut Stats, dir: &Path) {
 fn record(sh: &mut Shards, st: &mut Stats, t: &Tree, o: &Observed, tags: &BTreeSet<String>, source: &str) {
     st.eval(t, nontrivial(t));
     st.count(&format!("source:{}", source));
-    st.count(&format!("kind:{}", ["cut of a ledger", "cut with an include that matches nothing", "free-form tree", "cut with an include whose pattern is invalid"][t.kind.min(3) as usize]));
+    st.count(&format!("kind:{}", ["cut of a ledger", "cut with an include that matches nothing", "free-form tree", "cut with an include whose pattern is invalid", "tree whose files are included repeatedly"][t.kind.min(4) as usize]));
     for tag in tags {
         st.count(&format!("trees with {}", tag));
     }
@@ -974,7 +1333,7 @@ pub fn run(o: &Opts) {
         o.shards,
         "From Coq Require Import List NArith.\nFrom Okv Require Import Model.Glob Model.Load Run.Classify_C11.\nImport ListNotations.\nOpen Scope N_scope.",
     );
-    st.rule = "a case = a ledger of 0-10 identifiable transactions (running balance assertions make the order matter) cut at entry boundaries into a random tree of files (depth <= 4; sub-directories, parent and sibling directories through .., ./, up-and-back and absolute written paths; literal includes; glob includes *.ledger, prefix*.ledger, ?.ledger, dir*/f.ledger and */f.ledger, and character classes: 202[345].ledger, 20[12][0-9].ledger, q[1-4].ledger, y[a-c][!0-9].ledger, [!a]*.ledger, *[!0-9].ledger, [st]*/f.ledger, d[0-9]/f.ledger, and the spellings []x], [a-], [!]], [*?], x[.-]y, [.a]b, []-a], [é日] — whose matches are assigned consecutive chunks in PathBuf order; decoy files that must not match: dot-files, deeper levels, other suffixes, characters just outside a class or range, the other letter case, a file named like the pattern itself; names with '.', '-', ' ', '+' and non-ASCII letters so that component order differs from string order), one sixth of them with one include changed to match nothing (also a class that matches nothing, an empty range), one in ten of the rest with one include given a `[` that is never closed (LoadError::InvalidIncludeGlob), one in twenty with an include back to the root (a cycle: LoadError::IncludeCycle); loaded in child processes with Loader::load on FakeFileSystem and with new_loader on a real directory, plus report::process balances of the tree vs the uncut ledger; non-trivial = at least 2 loaded files and at least one glob (wildcard or class) or .. include; distinct by the whole tree".into();
+    st.rule = "a case = a ledger of 0-10 identifiable transactions (running balance assertions make the order matter) cut at entry boundaries into a random tree of files (depth <= 4; sub-directories, parent and sibling directories through .., ./, up-and-back and absolute written paths; literal includes; glob includes *.ledger, prefix*.ledger, ?.ledger, dir*/f.ledger and */f.ledger, and character classes: 202[345].ledger, 20[12][0-9].ledger, q[1-4].ledger, y[a-c][!0-9].ledger, [!a]*.ledger, *[!0-9].ledger, [st]*/f.ledger, d[0-9]/f.ledger, and the spellings []x], [a-], [!]], [*?], x[.-]y, [.a]b, []-a], [é日] — whose matches are assigned consecutive chunks in PathBuf order; decoy files that must not match: dot-files, deeper levels, other suffixes, characters just outside a class or range, the other letter case, a file named like the pattern itself; names with '.', '-', ' ', '+' and non-ASCII letters so that component order differs from string order), one sixth of them with one include changed to match nothing (also a class that matches nothing, an empty range), one in ten of the rest with one include given a `[` that is never closed (LoadError::InvalidIncludeGlob), one in twenty with an include back to the root (a cycle: LoadError::IncludeCycle); literal includes of dot-files (.x.ledger) and through dot directories (.cfg/x.ledger), never with a wildcard in the dotted component, and directories where `*.ledger` must skip a dot-file that a literal include beside it loads; plus trees (kind 4, a quarter of the run) in which one file is loaded twice or more — from sibling files, from the same file, nested — through `../common.ledger`, `./x.ledger`, `sub/../x.ledger`, `.././x`, `../own-dir/x`, absolute and plain spellings and through a wildcard over a shared directory, the expected delivery computed from the construction; loaded in child processes with Loader::load on FakeFileSystem and with new_loader on a real directory, plus report::process balances of the tree vs the uncut ledger; non-trivial = at least 2 loaded files and at least one glob (wildcard or class) or .. include; distinct by the whole tree".into();
     st.assumptions.push("patterns use literals, *, ? and character classes [...] / [!...] (no **); no class lists the separator '/' and no pattern component that holds a wildcard or a class begins with a literal dot (on both the real file system differs from the in-memory one, see the level note); . and .. components occur only before the first wildcard component and never climb above the tree's top directory; no pattern's last component matches a directory; no symlinks, valid UTF-8 names and contents".into());
     let sc = Scratch::new("c11");
     let mut q: Vec<Pending> = Vec::new();
@@ -1004,6 +1363,12 @@ pub fn run(o: &Opts) {
         for _ in 0..n {
             let (t, tags) = gen_tree(&mut r);
             queue(&mut q, &mut st, t, tags, "random");
+        }
+        let mut r = Rng::new(o.seed, 1112);
+        let n = if o.thorough { 4000 } else { 500 };
+        for _ in 0..n {
+            let (t, tags) = gen_shared_tree(&mut r);
+            queue(&mut q, &mut st, t, tags, "random (repeated includes)");
         }
     }
     flush(&mut q, &mut sh, &mut st, &sc.dir);
